@@ -1,7 +1,7 @@
 #!/bin/bash
 # tools/run_all.sh <seed> [tier] [--no-evidence]  - every check once; prints one line per property
 SEED=${1:-1}; TIER=${2:-quick}; shift 2
-cd /verif
+cd "$(dirname "$0")/.."
 for i in 01 02 03 04 05 06 07 08 09 10 11 12 13 14 15 16 17 18 19 20; do
   s=$(date +%s)
   VERIF_SEED=$SEED ./check C$i --tier $TIER "$@" > /dev/shm/runall-$SEED-C$i.log 2>&1; rc=$?
